@@ -1,28 +1,238 @@
-"""XBL — composition: the random beacon life cycle (not a listed property)."""
+"""XBL — composition: the random beacon life cycle (DESIGN.md §7; not a listed property)."""
+import json
 import os
+import re
+from concurrent.futures import ThreadPoolExecutor
 
 META = {
-    "disabled": True,   # composition check, not a property of properties.jsonl: must never enter MANIFEST.json
+    # A composition check, not a property of properties.jsonl: "disabled" stays so that
+    # engine/mkmanifest.py never puts it into MANIFEST.json. `./vcheck XBL` runs it all the same.
+    "disabled": True,
     "level": "model_checking",
-    "text": "composition of Dedup, RelayDedup, Gjkr (abstract outcome), SyncMachine, Support, Submission, DkgFate, Registry, "
-            "ShareCollection into one life-cycle specification; TLC checks system-level invariants; complete runs of the real "
-            "client are trace-validated against it.",
-    "note": "see selftest/XBL.md",
-    "technique": "TLA+ composition spec, TLC exhaustive + liveness; trace validation of end-to-end runs of beacon.Initialize nodes",
+    "text": "One TLA+ specification composes the per-property modules (Dedup, RelayDedup, Gjkr's abstract outcome, SyncMachine's "
+            "lockstep, Support, Submission/Slots, DkgFate, Registry, ShareCollection) into the beacon life cycle: DKG started event "
+            "-> deduplicator -> group selection -> GJKR -> result signing and support gate -> submission slots -> result event or "
+            "timeout -> member fate -> registry (restart) -> relay request -> deduplicator -> share collection -> entry submission "
+            "slots -> stale group archival. TLC checks system-level invariants no single module states (a node signs only with a "
+            "persisted membership of the group the chain accepted, key equal and member not listed; one DKG execution per seed, "
+            "node and process lifetime; registry = storage after restarts, archived groups never come back; every entry verifies "
+            "under the accepted key; nobody submits after observing or before its slot; no timeout with a correct quorum) "
+            "exhaustively on small worlds, by simulation on larger ones, liveness under fairness, and refutes six negative "
+            "configurations. Complete runs of the real client (one beacon.Initialize per node over a wrapped local_v1 chain, "
+            "pkg/net/local and the encrypted disk persistence; real GJKR, result publication, registry, threshold signing; "
+            "duplicates, stale events, crashes, restarts, message loss) are trace-validated against the composition with every "
+            "invariant evaluated at every step.",
+    "note": "Trusted: the chain side of the harness (first valid DKG result wins, BLS check of entries, current request, stale "
+            "groups) is hand written after the contracts; attribution of calls to members uses goroutine ids; 'correct' nodes of "
+            "a scenario are those the scenario injects no fault into. Liveness is checked on the model only (Prompt assumption); "
+            "on real runs missing activity is reported as a broken check, never as a violation.",
+    "technique": "TLA+ composition (INSTANCE of the per-property modules), TLC exhaustive + simulation + liveness + negative "
+                 "configurations; trace validation of end-to-end runs of real beacon nodes",
     "design_ref": "DESIGN.md §7",
 }
 SPEC = "specs/BeaconLifecycle"
 PKG = "pkg/beacon"
 FILES = ["xbl_world_test.go", "xbl_scenarios_test.go"]
+REUSED = {
+    "Slots.tla": "specs/Submission/Slots.tla",
+    "Support.tla": "specs/Support/Support.tla",
+    "DkgFate.tla": "specs/DkgFate/DkgFate.tla",
+    "RelayDedup.tla": "specs/RelayDedup/RelayDedup.tla",
+    "Registry.tla": "specs/Registry/Registry.tla",
+    "ShareCollection.tla": "specs/BlsRecovery/ShareCollection.tla",
+}
+ALL_ACTIONS = [
+    "StartDkg", "AdvanceDkg", "CloseDkg", "DeliverDkg", "JoinDkg", "GjkrDone", "SendSig", "Equivocate", "Verify", "SubmitDkg",
+    "ObserveDkg", "Resolve", "FateEvent", "FateTimeout", "Register", "RequestRelay", "AdvanceRelay", "CloseRelay", "ConfirmRelay",
+    "DedupRelay", "SendShare", "AcceptShare", "SubmitEntry", "ObserveEntry", "RelayTimeout", "ReportTimeout", "MarkStale",
+    "DeliverGroupRegistered", "ArchiveOne", "SweepDone", "Stop", "Start", "Resume",
+]
+# what the smallest exhaustive world (no faults, no duplicates, no restarts) must exercise
+QUICK_ACTIONS = ["StartDkg", "AdvanceDkg", "CloseDkg", "DeliverDkg", "JoinDkg", "GjkrDone", "SendSig", "Verify", "SubmitDkg",
+                 "ObserveDkg", "Resolve", "Register", "RequestRelay", "AdvanceRelay", "CloseRelay", "ConfirmRelay", "DedupRelay",
+                 "SendShare", "AcceptShare", "SubmitEntry", "ObserveEntry"]
+NEGATIVES = {   # cfg -> property TLC must refute
+    "Neg_Dedup": "OneDkgPerSeed", "Neg_WriteAhead": "RegistryIsStorage", "Neg_LeaveOnSeen": "NoSubmitAfterObserve",
+    "Neg_InGroup": "SignsOnlyAcceptedGroup", "Neg_FateCheck": "KeepOnlyAsChainDecided", "Neg_Agreement": "KeepOnlyAsChainDecided",
+}
+LAYOUT_CFG = {"abc": "Trace_abc", "aabc": "Trace_aabc"}
+
+
+VERIF = os.path.dirname(os.path.dirname(os.path.dirname(os.path.abspath(__file__))))
+
+
+def _files():
+    return {k: os.path.join(VERIF, v) for k, v in REUSED.items()}
+
+
+def _covered(res):
+    """names of the actions a TLC run took (coverage lines are named after DoX, X or XAny)"""
+    out = set()
+    for a in ALL_ACTIONS:
+        if any(res.coverage.get(n, (0, 0))[1] > 0 for n in (a, "Do" + a, a + "Any")):
+            out.add(a)
+    # RequestRelay is reported as RequestAny, GjkrDone as GjkrDoneAny, ...
+    if res.coverage.get("RequestAny", (0, 0))[1] > 0:
+        out.add("RequestRelay")
+    if res.coverage.get("AcceptAny", (0, 0))[1] > 0:
+        out.add("AcceptShare")
+    return out
+
+
+def _model(ctx, files):
+    """model checking part; returns the set of covered actions"""
+    covered = set()
+    jobs = []    # (kind, cfg, kwargs)
+    jobs.append(("mc", "MC_Quick", dict(timeout=900)))
+    negs = ["Neg_Dedup", "Neg_WriteAhead", "Neg_LeaveOnSeen", "Neg_InGroup", "Neg_FateCheck"]
+    if ctx.thorough:
+        negs.append("Neg_Agreement")
+        for c in ("MC_Dup", "MC_Stop", "MC_Bad"):
+            jobs.append(("mc", c, dict(timeout=2400)))
+        jobs.append(("live", "MC_Live", dict(timeout=2400)))
+    for c in negs:
+        jobs.append(("neg", c, dict(timeout=1200)))
+    sims = [("Sim_abc", ctx.pick(150, 6000)), ("Sim_aabc", ctx.pick(0, 2500))]
+    for c, num in sims:
+        if num:
+            jobs.append(("sim", c, dict(timeout=2400, num=num)))
+
+    def one(job):
+        kind, cfg, kw = job
+        if kind == "mc":
+            return job, ctx.tlc(SPEC, "MC_BeaconLifecycle", cfg=cfg, coverage=True, label=cfg, files=files, workers=4,
+                                heap="4g", **kw)
+        if kind == "live":
+            return job, ctx.tlc(SPEC, "MC_BeaconLifecycle", cfg=cfg, coverage=False, label=cfg, files=files, workers=4,
+                                heap="4g", **kw)
+        if kind == "neg":
+            return job, ctx.tlc(SPEC, "MC_BeaconLifecycle", cfg=cfg, label=cfg, files=files, workers=2, heap="3g",
+                                expect=("violation",), **kw)
+        return job, ctx.tlc(SPEC, "MC_BeaconLifecycle", cfg=cfg, mode="simulate", num=kw["num"], depth=400, coverage=True,
+                            label=cfg, files=files, heap="3g", timeout=kw["timeout"], simulate_seed=ctx.seed)
+
+    # at most 3 JVMs at a time (the machine is shared); exceptions surface through future.result()
+    with ThreadPoolExecutor(max_workers=3) as ex:
+        results = [f.result() for f in [ex.submit(one, j) for j in jobs]]
+    for (kind, cfg, _), res in results:
+        if kind == "neg":
+            if res.violated != NEGATIVES[cfg]:
+                ctx.broken("negative configuration %s: TLC refuted %s instead of %s" % (cfg, res.violated, NEGATIVES[cfg]))
+        elif kind in ("mc", "sim"):
+            got = _covered(res)
+            covered |= got
+            if cfg == "MC_Quick":
+                miss = [a for a in QUICK_ACTIONS if a not in got]
+                if miss:
+                    ctx.broken("vacuous model run MC_Quick: actions never taken: %s" % miss)
+    ctx.extra["negative_configs_refuted"] = {c: NEGATIVES[c] for c in negs}
+    return covered
+
+
+def _scenario_of(lines, hwm):
+    name = "?"
+    for ln in lines[:max(hwm, 1)]:
+        if '"event":"Reset"' in ln:
+            try:
+                name = json.loads(ln).get("scenario", "?")
+            except Exception:
+                pass
+    return name
+
+
+def _validate(ctx, go, layout, files):
+    path = os.path.join(go.outdir, "trace_%s.ndjson" % layout)
+    if not os.path.isfile(path):
+        return 0
+    lines = open(path).read().splitlines()
+    f = dict(files)
+    f["trace.ndjson"] = path
+    res = ctx.tlc(SPEC, "Trace_BeaconLifecycle", cfg=LAYOUT_CFG[layout], mode="bfs", workers=1, timeout=3000, dump_trace=False,
+                  label="Trace_" + layout, expect=("ok", "violation"), files=f, view_queue=True, heap="3g",
+                  extra_args=["-checkpoint", "0"])
+    nruns = sum(1 for ln in lines if '"event":"Reset"' in ln)
+    if res.ok:
+        ctx.trace_events += len(lines)
+        ctx.traces_validated += nruns
+        return nruns
+    m = None
+    for m in re.finditer(r'"VERIF_HWM",\s*(\d+)', res.out):
+        pass
+    hwm = int(m.group(1)) if m else 0
+    if res.violated and res.violated != "Postcondition":
+        # an invariant / action property of the composition is false in a state of the real run
+        cur = None
+        for cur in re.finditer(r"^/\\ l = (\d+)", res.out, re.M):
+            pass
+        at = int(cur.group(1)) if cur else hwm
+        sc = _scenario_of(lines, at)
+        ctx.violation("trace-inv:%s:%s" % (res.violated, sc),
+                      "a recorded run of the real beacon client (scenario %s) reaches a state in which %s of the life-cycle "
+                      "composition is false (around trace line %d: %s)" % (
+                          sc, res.violated, at, lines[at - 2][:300] if 2 <= at <= len(lines) + 1 else "?"),
+                      {"trace_tail": lines[max(0, at - 25):at + 1], "tlc": res.out[-3000:]})
+        return 0
+    sc = _scenario_of(lines, hwm)
+    bad = lines[hwm - 1] if 1 <= hwm <= len(lines) else "?"
+    evname = "?"
+    try:
+        evname = json.loads(bad).get("event", "?")
+    except Exception:
+        pass
+    ctx.violation("trace:%s:%s" % (sc, evname),
+                  "a recorded run of the real beacon client (scenario %s) is not a behaviour of the life-cycle composition: "
+                  "no action of the specification explains event %d: %s" % (sc, hwm, bad[:400]),
+                  {"trace_tail": lines[max(0, hwm - 25):hwm + 2], "tlc": res.out[-2000:]})
+    return 0
 
 
 def run(ctx):
-    scen = os.environ.get("XBL_SCENARIOS") or ctx.pick("happy", "happy,crash,fateOut,fateKeep,timeout,resume,twoRounds,multiSeat")
-    go = ctx.gotest(PKG, "^TestVerif_XBL_Lifecycle$", FILES, env={"XBL_SCENARIOS": scen}, label="lifecycle",
-                    timeout=ctx.pick(600, 1500))
-    ctx.absorb(go)
-    import shutil
-    for fn in os.listdir(go.outdir):
-        if fn.endswith(".ndjson"):
-            shutil.copy(os.path.join(go.outdir, fn), "/tmp/xbl_" + fn)
-    return ctx.finish(level="model_checking", rule="wip", assumptions=["wip"], exhaustive=False)
+    files = _files()
+    scen = os.environ.get("XBL_SCENARIOS") or ctx.pick("happy,fateKeep,crash",
+                                                       "happy,crash,fateOut,fateKeep,timeout,resume,twoRounds,multiSeat")
+    # the real runs take about a minute of block time: start them first, model check meanwhile
+    with ThreadPoolExecutor(max_workers=1) as ex:
+        fut = ex.submit(ctx.gotest, PKG, "^TestVerif_XBL_Lifecycle$", FILES, None, {"XBL_SCENARIOS": scen},
+                        ctx.pick(900, 1800), False, "lifecycle")
+        covered = _model(ctx, files)
+        go = fut.result()
+    if ctx.thorough:
+        miss = [a for a in ALL_ACTIONS if a not in covered]
+        if miss:
+            ctx.broken("vacuous model runs: actions never taken in any configuration: %s" % miss)
+    ctx.extra["actions_covered"] = sorted(covered)
+    ctx.absorb(go, require_evals=len(scen.split(",")))
+    rep = go.reports.get("lifecycle") or {}
+    notes = rep.get("notes") or []
+    if notes:
+        # a scenario did not run to its end (no accepted result, goroutines that did not end within the bound):
+        # slowness or a harness problem -- never a verdict about the code
+        ctx.broken("scenario(s) incomplete: %s" % "; ".join(notes))
+    cnt = rep.get("counters") or {}
+    need = ["ev_Submitted", "ev_Registered", "ev_Loaded", "ev_RelayJoined", "ev_ShareSent", "ev_EntrySubmitted", "dkg_accepted",
+            "entry_accepted", "ev_DkgJoinAttempt", "ev_RelayConfirm"]
+    if ctx.thorough:
+        need += ["ev_Forwarder", "ev_Archived", "ev_TimeoutReported", "ev_ResumeAsked", "ev_ResultObserved"]
+    missing = [k for k in need if not cnt.get(k)]
+    if missing:
+        ctx.broken("the recorded runs never showed: %s" % missing)
+    n = 0
+    for layout in LAYOUT_CFG:
+        n += _validate(ctx, go, layout, files)
+    if not ctx.violations and n < len(scen.split(",")):
+        ctx.broken("only %d of %d scenario traces were validated" % (n, len(scen.split(","))))
+    return ctx.finish(
+        level="model_checking",
+        rule="Model: exhaustive TLC runs of the composition for 3 seats / 3 operators, 1 DKG round, 1 relay request (quick: no "
+             "faults; thorough: also duplicate deliveries, a restart, one faulty operator with deviant GJKR views, equivocation "
+             "and message loss), liveness under fairness (MC_Live), seeded simulation of the large worlds (2 rounds, 2 requests, "
+             "duplicates, restarts, a faulty operator; 4 seats with an operator holding two), and the negative configurations "
+             "(TLC must refute the named invariant when one mechanism is switched off). Binding: scenarios %s, each a complete run "
+             "of real beacon nodes, trace-validated; non-trivial = every scenario." % scen,
+        assumptions=["the chain side of the harness stands for the contracts (hand written)",
+                     "GJKR is abstracted to its outcome in the model (C01/C02 are checked by their own modules); the traces run the real GJKR",
+                     "Prompt assumption for the no-timeout-with-quorum invariant and the liveness properties: chain time does not "
+                     "advance while a correct member has a step to take, and the chain does not request an entry from a group whose "
+                     "DKG result period is still running",
+                     "absence of expected activity in a real run is reported as a broken check (exit 2), never as a violation"],
+        exhaustive=False)
